@@ -48,7 +48,7 @@ def project_frame(df, sym_table: List[str], base: int, shifted: bool) -> List[Di
             "id": hta.ival(t[0]), "ts": clip(hta.ival(t[1]) - off), "dur": clip(hta.ival(t[2])),
             "end": clip(hta.ival(t[3]) - off), "pid": hta.ival(t[4]), "tid": hta.ival(t[5]), "stream": clip(hta.ival(t[6])),
             "corr": clip(hta.ival(t[7])), "name": sym_table[int(t[8])], "cat": sym_table[int(t[9])],
-            "link": hta.ival(t[10]), "iter": hta.ival(t[11]),
+            "link": hta.ival(t[10]), "iter": hta.scaled(t[11], 1),      # NaN (no iteration assigned, e.g. stream 0) -> sentinel -7777
         })
     return rows
 
@@ -94,7 +94,10 @@ def load_cfg(rng: random.Random, tier: str, prop: str) -> gen.GenCfg:
         n_ranks=rng.choice([1, 1, 2, 3, 4] if tier == "thorough" else [1, 2, 2, 3]),
         n_steps=rng.choice([0, 1, 2, 2, 3]),
         first_step_no=rng.choice([0, 3, 15]),
-        streams=rng.choice([(7,), (7, 9), (7, 9, 13)]),
+        # C01 speaks of every event mix: stream 0 (the legacy default stream) and interpreter frames included; C02 / C12 are stated for
+        # positive stream ids
+        streams=rng.choice([(7,), (7, 9), (7, 9, 13), (0, 7), (0,)] if prop == "C01" else [(7,), (7, 9), (7, 9, 13)]),
+        python_functions=(prop == "C01" and rng.random() < 0.4),
         p_launch=rng.choice([0.4, 0.6]), p_mem=0.25, p_comm=0.3,
         p_sync=rng.choice([0.0, 0.1, 0.2]), p_event_sync=rng.choice([0.0, 0.1]),
         p_drop_kernel=rng.choice([0.0, 0.1, 0.3]), p_drop_launch=rng.choice([0.0, 0.1, 0.3]),
